@@ -172,6 +172,7 @@ def handle (line : String) : String :=
     | "recL" => runRec true rest
     | "chunks" => runChunks rest
     | "snd" => runSnd rest
+    | "syn" => runSnd (rest ++ ["1"])
     | _ => "skip"
 
 def main : IO Unit := runDriver handle
